@@ -1,7 +1,7 @@
 (** C20 (extension, T1) — the definitions REGENERATED from the source (coq/gen/GenC20.v, compositions of the
     primitives of BenchNumpy.v) are equal to the hand-written model of Bench.v.  Proofs only. *)
 From Coq Require Import String QArith List Bool Arith Lia Permutation.
-From Leaspy Require Import Base.QAux Api.Bench Api.BenchProofs Api.BenchNumpy.
+From Leaspy Require Import Base.QAux Api.Bench Api.BenchProofs Api.BenchTie Api.BenchNumpy Api.BenchFit Api.BenchFitProofs.
 From LeaspyGen Require Import GenC20.
 Import ListNotations.
 
@@ -259,4 +259,240 @@ Theorem gen_constant_trajectory_eq vals ages : gen_constant_trajectory vals ages
 Proof.
   unfold gen_constant_trajectory, trajectory, py_list_repeat. f_equal.
   induction ages as [|a ages IH]; simpl; [reflexivity|]. now rewrite IH.
+Qed.
+
+(* ==================================================================================== *)
+(** * (c) LME personalisation *)
+
+Open Scope Q_scope.
+
+Lemma np_present_remove (obs : hist) : np_present (map snd obs) = map snd (remove_nans obs).
+Proof. induction obs as [|[t [y|]] obs IH]; simpl; [reflexivity| |]; now rewrite IH. Qed.
+
+Lemma np_compress_remove (obs : hist) :
+  np_compress (map negb (map np_isnan (map snd obs))) (map fst obs) = map fst (remove_nans obs).
+Proof. induction obs as [|[t [y|]] obs IH]; simpl; [reflexivity| |]; now rewrite IH. Qed.
+
+Lemma normalise_src p ts : ~ ages_std p == 0 ->
+  np_div_s ZeroScale (np_sub_s ts (ages_mean p)) (ages_std p) = Ok (map (normalise p) ts).
+Proof.
+  intros H. unfold np_div_s. destruct (Qeq_bool (ages_std p) 0) eqn:E.
+  - apply Qeq_bool_iff in E. contradiction.
+  - unfold np_sub_s. now rewrite map_map.
+Qed.
+
+Lemma normalise_src_zero p ts : ages_std p == 0 -> np_div_s ZeroScale (np_sub_s ts (ages_mean p)) (ages_std p) = Err ZeroScale.
+Proof. intros H. unfold np_div_s. apply Qeq_bool_iff in H. now rewrite H. Qed.
+
+Lemma add_constant_src p ts : ts <> [] -> sm_add_constant (map (normalise p) ts) = Ok (design p ts).
+Proof. destruct ts; [congruence|]. intros _. unfold sm_add_constant, design. simpl. now rewrite map_map. Qed.
+
+Lemma residuals_src p (o : list (Q * Q)) :
+  np_vsub (map snd o) (np_matvec_n2 (design p (map fst o)) (fe0 p, fe1 p)) = residuals p o.
+Proof.
+  unfold np_vsub, np_matvec_n2, design, residuals. induction o as [|x o IH]; simpl; [reflexivity|]. f_equal. exact IH.
+Qed.
+
+Lemma dotQ_map_map (f g : Q * Q -> Q) Z : dotQ (map f Z) (map g Z) = sumQ (map (fun z => f z * g z) Z).
+Proof. induction Z as [|z Z IH]; simpl; [reflexivity|]. now rewrite IH. Qed.
+
+Lemma np_dot_T_2_ZtZ Z : np_dot_T_2 Z Z = ZtZ Z.
+Proof. unfold np_dot_T_2, ZtZ. now rewrite !dotQ_map_map. Qed.
+
+(** the regenerated [_generic_get_random_effects] (two columns) IS [blup2] (when the shapes agree; otherwise both fail) *)
+Theorem gen_generic_re_2_eq r Z c : length Z = length r -> gen_generic_re_2 r Z c = blup2 Z r c.
+Proof.
+  intros L. unfold gen_generic_re_2, blup2, np_inv_2, np_add_kk_2, np_dot_Tv_2, np_dot_kk_k_2. cbv zeta.
+  rewrite np_dot_T_2_ZtZ, L, Nat.eqb_refl. simpl negb. cbv iota.
+  destruct (inv2 (madd (ZtZ Z) c)); reflexivity.
+Qed.
+
+Lemma res_Qeq_refl a : res_Qeq a a.
+Proof. destruct a; simpl; reflexivity. Qed.
+Lemma res_Qeq_sym a b : res_Qeq a b -> res_Qeq b a.
+Proof. destruct a, b; simpl; auto. intros H. now symmetry. Qed.
+Lemma res_Qeq_trans a b c : res_Qeq a b -> res_Qeq b c -> res_Qeq a c.
+Proof. destruct a, b, c; simpl; try tauto; try congruence. intros H1 H2. now rewrite H1. Qed.
+
+(** ... with one column it is [blup1] (the values are equal as rationals: [G * x] against [x / m]) *)
+Theorem gen_generic_re_1_eq r Z c : length Z = length r -> res_Qeq (gen_generic_re_1 r Z c) (blup1 Z r c).
+Proof.
+  intros L. unfold gen_generic_re_1, blup1, np_inv_1, np_add_kk_1, np_dot_Tv_1, np_dot_kk_k_1, np_dot_T_1. cbv zeta.
+  rewrite L, Nat.eqb_refl. simpl negb. cbv iota.
+  destruct (Qeq_bool (dotQ Z Z + c) 0) eqn:E; simpl; [reflexivity|].
+  apply Qeq_bool_neq in E. field. exact E.
+Qed.
+
+Theorem gen_intercept_re_eq r c : gen_intercept_re r (length r) c = intercept_re r c.
+Proof. reflexivity. Qed.
+
+(** the two code paths agree: the closed form of the random-intercept model IS the generic formula with Z = (1,...,1)' *)
+Theorem gen_paths_agree r c :
+  res_Qeq (gen_intercept_re r (length r) c) (gen_generic_re_1 r (repeat 1 (length r)) c).
+Proof.
+  rewrite gen_intercept_re_eq. eapply res_Qeq_trans; [apply intercept_special_case|].
+  apply res_Qeq_sym, gen_generic_re_1_eq, repeat_length.
+Qed.
+
+Definition re_dict (s : bool) (b : Q * Q) : list (string * Q) :=
+  if s then [("random_intercept"%string, fst b); ("random_slope_age"%string, snd b)] else [("random_intercept"%string, fst b)].
+
+(** the regenerated personalisation IS [lme_personalize] (the dict of individual parameters it returns) *)
+Theorem gen_lme_personalize_eq s p obs :
+  gen_lme_personalize s p obs = rmap (re_dict s) (lme_personalize s p obs).
+Proof.
+  unfold gen_lme_personalize, lme_personalize. cbv zeta.
+  rewrite np_present_remove, np_compress_remove.
+  destruct (Qeq_bool (ages_std p) 0) eqn:E0.
+  - apply Qeq_bool_iff in E0. rewrite (normalise_src_zero p _ E0). destruct s; reflexivity.
+  - apply Qeq_bool_neq in E0. rewrite (normalise_src p _ E0). cbn [rbind].
+    remember (remove_nans obs) as o0 eqn:Eo0. clear Eo0 obs.
+    destruct o0 as [|x o']; [destruct s; reflexivity|]. cbv iota.
+    remember (x :: o') as o eqn:Eo.
+    assert (NE : map fst o <> []) by (subst o; discriminate). clear Eo x o'.
+    rewrite (add_constant_src p _ NE). cbn [rbind]. rewrite residuals_src.
+    destruct s.
+    + pose proof (gen_generic_re_2_eq (residuals p o) (design p (map fst o)) (cov_inv p)) as G.
+      unfold gen_generic_re_2 in G. cbv zeta in G.
+      rewrite <- G by (unfold design, residuals; now rewrite !map_length).
+      destruct (np_inv_2 _) as [G3|e]; cbn [rbind rmap]; [|reflexivity].
+      destruct (np_dot_Tv_2 _ _) as [x4|e]; cbn [rbind rmap]; reflexivity.
+    + assert (Lr : length (residuals p o) = length o) by (unfold residuals; apply map_length).
+      unfold intercept_re, q_div. rewrite map_length, Lr.
+      destruct (Qeq_bool _ 0); reflexivity.
+Qed.
+
+(* ==================================================================================== *)
+(** * (e) LME trajectory *)
+
+Theorem gen_lme_trajectory_eq s p ip a b ages :
+  py_dict_get ip "random_intercept" = Ok a -> (s = true -> py_dict_get ip "random_slope_age" = Ok b) -> ages <> [] ->
+  gen_lme_trajectory s p ip ages = lme_trajectory p (a, if s then b else 0) ages.
+Proof.
+  intros Ha Hb NE. unfold gen_lme_trajectory, lme_trajectory.
+  destruct (Qeq_bool (ages_std p) 0) eqn:E0.
+  - apply Qeq_bool_iff in E0. rewrite (normalise_src_zero p _ E0). destruct s; reflexivity.
+  - apply Qeq_bool_neq in E0. rewrite (normalise_src p _ E0). cbn [rbind].
+    rewrite (add_constant_src p _ NE). cbn [rbind]. rewrite Ha. cbn [rbind].
+    destruct s.
+    + rewrite (Hb eq_refl). cbn [rbind]. unfold np_matvec_n2, np_add_k_2, design. rewrite map_map. reflexivity.
+    + unfold np_matvec_n2, np_add_k_2, design. rewrite map_map. reflexivity.
+Qed.
+
+(* ==================================================================================== *)
+(** * (d) what the fit stores *)
+
+Theorem gen_fit_store_2_eq ages f : gen_fit_store_2 ages f = lme_fit_store_2 ages f.
+Proof. unfold gen_fit_store_2, lme_fit_store_2, np_inv_2. cbv zeta. destruct (inv2 _); reflexivity. Qed.
+
+Theorem gen_fit_store_1_eq ages f : gen_fit_store_1 ages f = lme_fit_store_1 ages f.
+Proof. unfold gen_fit_store_1, lme_fit_store_1, np_inv_1. cbv zeta. destruct (Qeq_bool _ 0); reflexivity. Qed.
+
+Theorem gen_fit_table_eq : gen_fit_table = fit_table.
+Proof. reflexivity. Qed.
+
+(** the conditional means computed by the regenerated personalisation code from what the regenerated fit stored are
+    the covariance form [D Z'(Z D Z' + I)^-1 r] with [D = cov_re / noise^2] *)
+Theorem gen_fit_then_generic ages f s Z r b w :
+  gen_fit_store_2 ages f = Accepted s -> gen_generic_re_2 r Z (st_cov_inv s) = Ok b -> length Z = length r ->
+  let D := mscale2 (/ st_noise_var s) (st_cov_re s) in
+  cov_system2 Z D w r -> fst (cov_form2 Z D w) == fst b /\ snd (cov_form2 Z D w) == snd b.
+Proof.
+  rewrite gen_fit_store_2_eq. intros Hf Hg L D S. rewrite gen_generic_re_2_eq in Hg by assumption.
+  unfold lme_fit_store_2 in Hf. destruct (inv2 (sm_cov_re_unscaled_2 f)) as [ci|e] eqn:E; [|discriminate].
+  inversion Hf; subst; clear Hf. cbn [st_cov_inv st_noise_var st_cov_re] in *.
+  eapply cov_form2_eq_precision; eassumption.
+Qed.
+
+(** the same facts stated on the REGENERATED storing step *)
+Theorem gen_fit_2_inverse ages f s :
+  gen_fit_store_2 ages f = Accepted s ->
+  let U := mscale2 (/ st_noise_var s) (st_cov_re s) in
+  meq2 (mmul2 (st_cov_inv s) U) mid2 /\ meq2 (mmul2 U (st_cov_inv s)) mid2 /\
+  st_fe s = sm_fe f /\ st_cov_re s = sm_cov_re f /\ st_noise_var s = sm_scale f /\
+  st_ages_mean s = np_mean ages /\ st_ages_var s = np_var ages.
+Proof. rewrite gen_fit_store_2_eq. apply fit_store_2_inverse. Qed.
+
+Theorem gen_fit_2_refuses ages f :
+  (det2 (sm_cov_re_unscaled_2 f) == 0 -> gen_fit_store_2 ages f = Refused) /\
+  (~ sm_scale f == 0 -> det2 (sm_cov_re f) == 0 -> gen_fit_store_2 ages f = Refused) /\
+  (~ det2 (sm_cov_re_unscaled_2 f) == 0 -> exists s, gen_fit_store_2 ages f = Accepted s).
+Proof. rewrite gen_fit_store_2_eq. apply fit_store_2_refuses. Qed.
+
+Theorem gen_fit_1_inverse ages f s :
+  gen_fit_store_1 ages f = Accepted s ->
+  let u := / st_noise_var s * st_cov_re s in
+  st_cov_inv s * u == 1 /\ u * st_cov_inv s == 1 /\
+  st_fe s = sm_fe f /\ st_cov_re s = sm_cov_re f /\ st_noise_var s = sm_scale f.
+Proof. rewrite gen_fit_store_1_eq. apply fit_store_1_inverse. Qed.
+
+Theorem gen_fit_1_refuses ages f :
+  (sm_cov_re f == 0 -> gen_fit_store_1 ages f = Refused) /\
+  (~ sm_cov_re_unscaled_1 f == 0 -> exists s, gen_fit_store_1 ages f = Accepted s).
+Proof. rewrite gen_fit_store_1_eq. apply fit_store_1_refuses. Qed.
+
+(* ==================================================================================== *)
+(** * non-vacuity: the regenerated definitions evaluated on concrete inputs *)
+
+Definition sx_params : lme_params := LmeParams 70 4 2 (1 # 2) (Mat2 2 (1 # 2) (1 # 2) 3).
+Definition sx_obs : hist := [(74, Some 3); (66, None); (78, Some (7 # 2)); (70, Some 2)].
+
+Example gen_lme_personalize_example :
+  (exists a b, gen_lme_personalize true sx_params sx_obs = Ok [("random_intercept"%string, a); ("random_slope_age"%string, b)]
+               /\ lme_personalize true sx_params sx_obs = Ok (a, b)) /\
+  (exists a, gen_lme_personalize false sx_params sx_obs = Ok [("random_intercept"%string, a)] /\ a == 1 # 5) /\
+  gen_lme_personalize true sx_params [(70, None)] = Err Empty /\
+  gen_lme_personalize true (LmeParams 70 0 2 1 (Mat2 1 0 0 1)) sx_obs = Err ZeroScale.
+Proof.
+  split; [|split; [|split]].
+  - rewrite gen_lme_personalize_eq. destruct (lme_personalize true sx_params sx_obs) as [[a b]|e] eqn:E; [|vm_compute in E; discriminate].
+    exists a, b. split; reflexivity.
+  - eexists. split; [vm_compute; reflexivity|vm_compute; reflexivity].
+  - reflexivity.
+  - reflexivity.
+Qed.
+
+Example gen_paths_agree_example :
+  res_Qeq (gen_intercept_re [1; 2; -1 # 2] 3 2) (Ok (1 # 2)) /\
+  res_Qeq (gen_generic_re_1 [1; 2; -1 # 2] [1; 1; 1] 2) (Ok (1 # 2)) /\
+  gen_intercept_re [1] 1 (-1) = Err Singular /\ gen_generic_re_1 [1] [1] (-1) = Err Singular /\
+  gen_generic_re_2 [1] [(1, 0); (1, 1)] (Mat2 1 0 0 1) = Err Shape.
+Proof. repeat split; vm_compute; reflexivity. Qed.
+
+Example gen_lme_trajectory_example :
+  res_check (all2 Qeq_bool) (gen_lme_trajectory true sx_params [("random_intercept"%string, 1); ("random_slope_age"%string, 1 # 2)] [70; 74; 66])
+            (Ok [3; 4; 2]) = true /\
+  res_check (all2 Qeq_bool) (gen_lme_trajectory false sx_params [("random_intercept"%string, 1); ("random_slope_age"%string, 1 # 2)] [70; 74])
+            (Ok [3; 7 # 2]) = true /\
+  gen_lme_trajectory true sx_params [("random_intercept"%string, 1)] [70] = Err Shape.
+Proof. repeat split; vm_compute; reflexivity. Qed.
+
+(** an accepted fit, a refused one (zero variance of the random intercept; rank-one covariance), and the conditional means
+    of an accepted fit in covariance form *)
+Example gen_fit_example :
+  (exists s, gen_fit_store_2 [68; 70; 72] (SmResult (2, 1 # 2) (Mat2 2 0 0 4) 2) = Accepted s /\ mat_close 0 (st_cov_inv s) (Mat2 1 0 0 (1 # 2)) = true
+             /\ st_ages_mean s == 70 /\ st_ages_var s == 8 # 3) /\
+  gen_fit_store_2 [68; 70] (SmResult (2, 1) (Mat2 0 0 0 0) 2) = Refused /\
+  gen_fit_store_2 [68; 70] (SmResult (2, 1) (Mat2 1 2 2 4) 1) = Refused /\
+  gen_fit_store_1 [68; 70] (SmResult (2, 1) 0 2) = Refused /\
+  (exists s, gen_fit_store_1 [68; 70] (SmResult (2, 1) 3 2) = Accepted s /\ st_cov_inv s == 2 # 3).
+Proof.
+  split; [|split; [|split; [|split]]]; try reflexivity.
+  - eexists. split; [reflexivity|]. split; [vm_compute; reflexivity|]. split; vm_compute; reflexivity.
+  - eexists. split; [reflexivity|]. vm_compute. reflexivity.
+Qed.
+
+Example cov_form_example :
+  let Z := [(1, 0); (1, 1)] in let D := Mat2 1 0 0 1 in
+  cov_system2 Z D [1; 1] [3; 4] /\ inv2 D = Ok D /\ (exists b, blup2 Z [3; 4] D = Ok b /\ fst b == 2 /\ snd b == 1) /\ (fst (cov_form2 Z D [1; 1]) == 2 /\ snd (cov_form2 Z D [1; 1]) == 1) /\
+  cov_system1 [1; 1] 2 [1; 1] [5; 5] /\ (exists b, blup1 [1; 1] [5; 5] (/ 2) = Ok b /\ b == 4) /\ cov_form1 [1; 1] 2 [1; 1] == 4.
+Proof.
+  cbv zeta. split; [|split; [|split; [|split; [|split; [|split]]]]].
+  - split; [reflexivity|]. split; [reflexivity|]. repeat constructor; vm_compute; reflexivity.
+  - vm_compute. reflexivity.
+  - eexists. split; [vm_compute; reflexivity|]. split; vm_compute; reflexivity.
+  - split; vm_compute; reflexivity.
+  - split; [reflexivity|]. split; [reflexivity|]. repeat constructor; vm_compute; reflexivity.
+  - eexists. split; [vm_compute; reflexivity|]. vm_compute. reflexivity.
+  - vm_compute. reflexivity.
 Qed.
